@@ -49,7 +49,7 @@ m = {
         {"name": "vpr", "path": "vpr/", "serves_properties": sorted(CLAIMED), "kind_free_text": "Python analyses over the facts: CFG dominance / must-pass-through, provenance slices, call graph with CHA, field access index, HIR match-arm tables; per-property rules in rules/"},
     ],
     "checks": checks,
-    "notes": "Static analysis only: every check re-extracts facts from /repo's current working tree (content-hash keyed cache under .cache/), applies repo-specific rules and reports a specific construct. Genuine defects found are either repaired in /repo ('fix:' commits) or listed in known_findings.json. See DESIGN.md.",
+    "notes": "Static analysis only: every check re-extracts facts from /repo's current working tree (content-hash keyed cache under .cache/), applies repo-specific rules and reports a specific construct. Genuine defects found are either repaired in /repo ('fix:' commits) or listed in known_findings.json. The thorough command additionally applies every seeded defect / regression patch of the property (seeded/) to a scratch copy of the current working tree and records in the evidence whether the rule reports it (never a VIOLATION). Most claims are partial: each decides named structural clauses that are necessary conditions of the property, not the behaviour; level texts and evidence say which. See DESIGN.md section 0.",
     "not_applicable": na,
 }
 json.dump(m, open(os.path.join(VERIF, "MANIFEST.json"), "w"), indent=1)
